@@ -77,6 +77,8 @@ Record task := {
   t_dir : string;              (* "" = no dir: *)
   t_ncmds : nat;               (* commands 0 .. n-1, each appends (task, i) to the trace *)
   t_outputs : list path;       (* files the last command writes once every command succeeded *)
+  t_dep : option (path * path); (* Some (spec, dst): the task has a dep (a task without sources, so it always runs) whose
+                                  command copies the content of spec to dst - typically one of this task's sources *)
   t_subguard : option path     (* Some fl: the first command is `task: child`, a task without sources whose
                                   precondition is [test -f fl] and whose one command appends (task, n) to the trace *)
 }.
@@ -364,8 +366,23 @@ Section Oracles.
 
   Definition is_prompt_no (o : outcome) : bool := match o with PromptNo => true | _ => false end.
 
-  (* Executor.RunTask for one directly called task without deps *)
-  Definition run_task (v : variant) (now : N) (s : state) (m : mode) (tid : nat) (t : task) (o : outcome)
+  (* runDeps: the dep runs before the up-to-date check of a normal or forced run (in dry mode its command
+     is only printed; --status, --list, --summary do not run deps).  The file it writes is stamped like
+     everything an invocation writes after its check: now + 1. *)
+  Definition dep_write (now : N) (t : task) (f : fsmap) : fsmap :=
+    match t_dep t with
+    | Some (spec, dst) =>
+        match lookup spec f with
+        | Some x => fs_set dst {| f_content := f_content x; f_mtime := N.succ now |} f
+        | None => f
+        end
+    | None => f
+    end.
+  Definition deps_fs (m : mode) (now : N) (t : task) (f : fsmap) : fsmap :=
+    match m with Run | Force => dep_write now t f | _ => f end.
+
+  (* Executor.RunTask after runDeps, for one directly called task *)
+  Definition run_task_core (v : variant) (now : N) (s : state) (m : mode) (tid : nat) (t : task) (o : outcome)
     : state * res :=
     let dry := match m with Dry => true | _ => false end in
     let force := match m with Force => true | _ => false end in
@@ -385,6 +402,11 @@ Section Oracles.
         else if dry then (s3, RDry)
         else
           run_cmds v now f0 force (child_trace s3 tid t) tid t o.
+
+  (* Executor.RunTask: deps first; the fingerprint that matters is the one of the tree they leave *)
+  Definition run_task (v : variant) (now : N) (s : state) (m : mode) (tid : nat) (t : task) (o : outcome)
+    : state * res :=
+    run_task_core v now (with_fs s (deps_fs m now t (fs s))) m tid t o.
 
   (* ToEditorOutput: the check of every listed task *)
   Definition list_json (v : variant) (now : N) (s : state) (p : project) : state :=
@@ -536,9 +558,10 @@ Section Oracles.
         match nth_error p tid with
         | None => (true, g)
         | Some t =>
-            let fp := task_fp t before in
+            let f1 := deps_fs m (fst (o_ev e)) t before in   (* the present fingerprint: after the deps ran *)
+            let fp := task_fp t f1 in
             let ok := if is_skipped (o_res e)
-                      then match g04_lookup tid fp g with Some true => gens_exist before t | _ => false end
+                      then match g04_lookup tid fp g with Some true => gens_exist f1 t | _ => false end
                       else true in
             (ok, if is_attempt m (o_res e) then (tid, fp, is_ok (o_res e)) :: g else g)
         end
@@ -564,14 +587,15 @@ Section Oracles.
         match nth_error p tid with
         | None => (true, g)
         | Some t =>
-            let fp := task_fp t before in
+            let f1 := deps_fs m (fst (o_ev e)) t before in
+            let fp := task_fp t f1 in
             let ok :=
               match m with
               | Run =>
                   match lookup_nat tid g with
                   | Some (fp0, true) =>
-                      let expect := fpr_eqb fp fp0 && gens_exist before t
-                                    && (is_nil (t_status t) || status_ok before t) in
+                      let expect := fpr_eqb fp fp0 && gens_exist f1 t
+                                    && (is_nil (t_status t) || status_ok f1 t) in
                       match o_res e with
                       | RSkipped => expect
                       | ROk | RFailed | RDeclined | RKilled => negb expect
